@@ -369,9 +369,11 @@ def set_dumper(format_name: str, dumper_fn: Callable[[Any], str]):
 
 def set_omegaconf_loader():
     if omegaconf_support and "omegaconf" not in loaders:
+        from omegaconf.errors import OmegaConfBaseException
+
         from ._optionals import get_omegaconf_loader
 
-        set_loader("omegaconf", get_omegaconf_loader(), get_loader_exceptions("yaml"))
+        set_loader("omegaconf", get_omegaconf_loader(), get_loader_exceptions("yaml") + (OmegaConfBaseException,))
 
 
 set_loader("jsonnet", jsonnet_load, get_loader_exceptions("jsonnet"))
